@@ -44,6 +44,7 @@ struct Features {
     include: bool,
     comps: bool,
     dyn_slots: bool,
+    root_slots: bool,
     model: bool,
     events: bool,
     type_flip: bool,
@@ -231,6 +232,41 @@ impl<'a> Ctx<'a> {
                 }
             }
             13 | 14 => self.arith(0),
+            15 => {
+                // dynamic member access whose object has no data path of its own
+                let mut idxs: Vec<Expr> = if self.in_template { vec![id("k")] } else { vec![id("n"), id("n"), member(id("l2"), "length")] };
+                for sv in &self.scope {
+                    if sv.kind == Kind::Index {
+                        idxs.push(id(&sv.name));
+                        idxs.push(id(&sv.name));
+                    }
+                }
+                let i = self.r.below(idxs.len());
+                let ix = idxs.swap_remove(i);
+                let s_leaf = if self.in_template { id("x") } else { id("s") };
+                let pick = self.r.below(if self.in_template { 3 } else { 7 });
+                if pick >= 3 {
+                    // l2 is read by position: splices must re-mark shifted positions
+                    self.used_index_reads = true;
+                }
+                let obj = match pick {
+                    0 => Expr::Str("abcdef".into()),
+                    1 => bin("+", s_leaf, Expr::Str("abc".into())),
+                    2 => bin("+", Expr::Str("uvw".into()), self.scalar_leaf()),
+                    3 => bin(*self.r.pick(&["||", "??"]), id("l2"), id("list")),
+                    4 => bin("&&", id("flag"), id("l2")),
+                    5 => Expr::Cond(Box::new(id("flag")), Box::new(id("l2")), Box::new(Expr::Str("wxyz".into()))),
+                    _ => {
+                        if self.f.calls && !self.modules.is_empty() {
+                            let m = self.r.pick(&self.modules).clone();
+                            Expr::Call(Box::new(member(id(&m), "f")), vec![s_leaf])
+                        } else {
+                            bin("||", id("l2"), Expr::Str("zyx".into()))
+                        }
+                    }
+                };
+                index(obj, ix)
+            }
             12 => {
                 let o = self.object_leaf();
                 let key = if self.r.chance(0.5) && !self.in_template { id("s") } else { Expr::Str((*self.r.pick(&["x", "k", "v", "z", "p"])).into()) };
@@ -397,7 +433,20 @@ impl<'a> Ctx<'a> {
                         0 => AttrVal::Static((*self.r.pick(&["h1", "h2"])).to_string()),
                         1 if !self.modules.is_empty() && !self.in_template => {
                             let m = self.r.pick(&self.modules).clone();
-                            AttrVal::Bind(if self.r.chance(0.7) { member(id(&m), "f") } else { member(member(id(&m), "o"), "g") })
+                            let m2 = self.r.pick(&self.modules).clone();
+                            let one = if self.r.chance(0.7) { member(id(&m), "f") } else { member(member(id(&m), "o"), "g") };
+                            if self.r.chance(0.45) {
+                                // the handler (and with it the script path) is selected by data
+                                let other = match self.r.below(3) {
+                                    0 => member(id(&m2), "j"),
+                                    1 => member(member(id(&m2), "o"), "g"),
+                                    _ => member(id(&m2), "f"),
+                                };
+                                let c = if self.r.chance(0.6) { id("flag") } else { self.scalar_leaf() };
+                                AttrVal::Bind(Expr::Cond(Box::new(c), Box::new(one), Box::new(other)))
+                            } else {
+                                AttrVal::Bind(one)
+                            }
                         }
                         2 if !self.in_template => AttrVal::Bind(id("s")),
                         _ => AttrVal::Static("h1".into()),
@@ -605,6 +654,16 @@ impl<'a> Ctx<'a> {
             15 if self.f.include && !self.in_template && self.scope.is_empty() => Node::Include("/inc/part".into()),
             16 | 17 if self.f.comps && !self.in_template => self.comp(depth),
             18 => Node::Comment(format!(" c{} ", self.r.below(9))),
+            19 if self.f.root_slots => {
+                // the root component uses dynamic slots: slot values are observable on the slot node
+                let name = if self.r.chance(0.25) { AttrVal::Static((*self.r.pick(&["a", "b"])).into()) } else { AttrVal::None };
+                let n = self.r.range(1, 2);
+                let mut values = vec![];
+                for i in 0..n {
+                    values.push(Attr { name: ["sv", "si"][i % 2].into(), val: AttrVal::Bind(self.top_expr()) });
+                }
+                Node::Slot { name, values }
+            }
             _ => Node::Text(self.text_parts()),
         }
     }
@@ -612,7 +671,7 @@ impl<'a> Ctx<'a> {
     fn comp(&mut self, depth: usize) -> Node {
         let mut kinds = vec!["plain", "plain", "multi", "mchild"];
         if self.f.dyn_slots {
-            kinds.extend(["dyn", "dyn", "dynnk"]);
+            kinds.extend(["dyn", "dyn", "dynnk", "dynt"]);
         }
         let kind = *self.r.pick(&kinds);
         if !self.used_comps.iter().any(|c| c == kind) {
@@ -672,6 +731,22 @@ impl<'a> Ctx<'a> {
                 let (e, ok) = self.model_expr();
                 attrs.push(Attr { name: if ok { "model:val".into() } else { "model:nval".into() }, val: AttrVal::Bind(e) });
                 Node::El { tag: "mchild".into(), attrs, children: vec![] }
+            }
+            "dynt" => {
+                // dynamic-slots child whose slot sits in a sub-template fed with spread data
+                let o = self.object_leaf();
+                attrs.push(Attr { name: "p".into(), val: AttrVal::Bind(o) });
+                self.scope.push(ScopeVar { name: "sv".into(), kind: Kind::Any, assignable: false });
+                self.scope.push(ScopeVar { name: "si".into(), kind: Kind::Any, assignable: false });
+                let inner = vec![Node::Text(self.text_parts())];
+                self.scope.pop();
+                self.scope.pop();
+                let content = Node::El {
+                    tag: "view".into(),
+                    attrs: vec![Attr { name: "slot:sv".into(), val: AttrVal::None }, Attr { name: "slot:si".into(), val: AttrVal::None }],
+                    children: inner,
+                };
+                Node::El { tag: "dynt".into(), attrs, children: vec![content] }
             }
             _ => {
                 // dynamic-slots child: slots are produced from a property
@@ -908,6 +983,7 @@ pub fn catalogue_file(kind: &str) -> TFile {
         "mchild" => "<text>V:{{val}}</text>",
         "dyn" => "<text>D:{{p}}</text><block wx:for=\"{{items}}\" wx:key=\"k\"><slot sv=\"{{item}}\" si=\"{{index}}\"/></block>",
         "dynnk" => "<text>E:{{p}}</text><block wx:for=\"{{items}}\"><slot sv=\"{{item}}\" si=\"{{index}}\"/></block>",
+        "dynt" => "<template name=\"row\"><text>R:{{x}}:{{v}}</text><slot sv=\"{{x || v || p}}\" si=\"{{k}}\"/></template><text>T:{{p.k}}</text><template is=\"row\" data=\"{{...p}}\"/>",
         _ => "",
     };
     TFile { path: format!("comp/{}", kind), raw: Some(raw.into()), ..Default::default() }
@@ -920,6 +996,7 @@ pub fn catalogue_component(kind: &str) -> Value {
         "mchild" => json!({"is": "mchild", "path": "comp/mchild", "properties": {"val": {"type": "any", "value": null}, "nval": {"type": "any", "value": null}}}),
         "dyn" => json!({"is": "dyn", "path": "comp/dyn", "options": {"dynamicSlots": true}, "properties": {"items": {"type": "any", "value": []}, "p": {"type": "any", "value": null}}}),
         "dynnk" => json!({"is": "dynnk", "path": "comp/dynnk", "options": {"dynamicSlots": true}, "properties": {"items": {"type": "any", "value": []}, "p": {"type": "any", "value": null}}}),
+        "dynt" => json!({"is": "dynt", "path": "comp/dynt", "options": {"dynamicSlots": true}, "properties": {"p": {"type": "any", "value": null}}}),
         _ => json!({}),
     }
 }
@@ -952,6 +1029,7 @@ pub fn generate_with(seed: u64, prop: Prop, deep: bool) -> World {
         include: rc.chance(0.25),
         comps: rc.chance(0.55),
         dyn_slots: rc.chance(0.4),
+        root_slots: rc.chance(0.25),
         model: rc.chance(if prop == Prop::C11 { 0.95 } else { 0.5 }),
         events: rc.chance(0.5),
         type_flip: rc.chance(0.3),
@@ -1061,7 +1139,11 @@ pub fn generate_with(seed: u64, prop: Prop, deep: bool) -> World {
         components.push(catalogue_component(k));
         using.insert(k.clone(), json!(k));
     }
-    components.push(json!({"is": "root", "path": root_path, "root": true, "using": using, "methods": ["h1", "h2"]}));
+    let mut root_comp = json!({"is": "root", "path": root_path, "root": true, "using": using, "methods": ["h1", "h2"]});
+    if f.root_slots {
+        root_comp["options"] = json!({"dynamicSlots": true});
+    }
+    components.push(root_comp);
     let mut scripts = vec![];
     if with_ext {
         scripts.push(("utils/s".to_string(), WXS_EXT.to_string()));
